@@ -58,6 +58,12 @@ def record(kind):
     raise ValueError(kind)
 
 
+_fx = [0]
+# "authentication or encryption errors", from the property text - NOT the library's own constant
+from aioesphomeapi.core import InvalidAuthAPIError as _IA, InvalidEncryptionKeyAPIError as _IK, RequiresEncryptionAPIError as _RE  # noqa: E402
+AUTH_KINDS = (_IA, _IK, _RE)
+
+
 class ObservedClient(APIClient):
     """the real client; calls of start_connection are logged"""
     bench = None
@@ -66,6 +72,27 @@ class ObservedClient(APIClient):
         self.bench.acts.append("attempt")
         self.bench.fin_delivered = False
         await super().start_connection(on_stop=on_stop)
+
+    async def finish_connection(self, *, login):
+        # the failure really happens (wrong password / reset during the handshake); what the manager is shown rotates over
+        # the library's error classes of the same kind: authentication / encryption errors on one side, everything else on
+        # the other ("60 s after authentication or encryption errors" is a statement about classes)
+        from aioesphomeapi import core as _c
+        try:
+            await super().finish_connection(login=login)
+        except _c.APIConnectionError as e:
+            _fx[0] += 1
+            if isinstance(e, _c.InvalidAuthAPIError):
+                sub = [None, _c.InvalidEncryptionKeyAPIError("k"), _c.RequiresEncryptionAPIError("r")][_fx[0] % 3]
+            elif isinstance(e, (_c.APIConnectionCancelledError,)) or type(e).__name__ == "APIConnectionCancelledError":
+                sub = None
+            else:
+                sub = [None, _c.HandshakeAPIError("h"), _c.BadNameAPIError("n", "x"), _c.ProtocolAPIError("p"), _c.TimeoutAPIError("t"),
+                       _c.SocketClosedAPIError("s"), _c.ReadFailedAPIError("r"), _c.APIConnectionError("a"), _c.PingFailedAPIError("p"),
+                       _c.ResolveAPIError("r")][_fx[0] % 10]
+            if sub is None:
+                raise
+            raise sub from e
 
 
 class ObservedLogic(rl.ReconnectLogic):
@@ -93,7 +120,7 @@ class ObservedLogic(rl.ReconnectLogic):
     async def _handle_connection_failure(self, err):
         # on_connect_error is optional: without it the report is made visible here (same place in the order of events)
         if self._on_connect_error_cb is None and self.acts is not None:
-            self.acts.append("on_connect_error:" + ("auth" if isinstance(err, rl.AUTH_EXCEPTIONS) else "other"))
+            self.acts.append("on_connect_error:" + ("auth" if isinstance(err, AUTH_KINDS) else "other"))
         await super()._handle_connection_failure(err)
 
 
@@ -139,7 +166,7 @@ class Bench:
             await maybe_suspend(2)
 
         async def on_connect_error(err):
-            self.acts.append("on_connect_error:" + ("auth" if isinstance(err, rl.AUTH_EXCEPTIONS) else "other"))
+            self.acts.append("on_connect_error:" + ("auth" if isinstance(err, AUTH_KINDS) else "other"))
             self.errors.append(type(err).__name__)
             await maybe_suspend(1)
 
@@ -409,6 +436,7 @@ class Oracle:
         stopped_final = False      # stop() has returned, start() was not called since and no earlier start() is still pending
         pending_starts = 0
         uncounted = None
+        reported_kind = "other"
         prev_snap = None
         for i, (ev, acts, snap) in enumerate(trace):
             f = dict(x.split("=") for x in snap.split())
@@ -451,10 +479,12 @@ class Oracle:
                 elif a.startswith("on_connect_error"):
                     outcomes += 1
                     uncounted = i
+                    reported_kind = a.split(":")[1]
                 elif a.startswith("fail_counted"):
                     uncounted = None
-                    # the failure is counted when on_connect_error has returned; the retry timer follows at once
-                    fails = 100 if a.endswith("auth") else fails + 1
+                    # the failure is counted when on_connect_error has returned; the retry timer follows at once.  Whether it
+                    # is an authentication / encryption error is judged on the error that was reported, by its class
+                    fails = 100 if reported_kind == "auth" else fails + 1
                     want = min(round(1.8 ** min(fails, 10)), 60) if fails < 100 else 60
                     arms = [x for x in acts[j + 1:] if x.startswith("arm:")]
                     if not arms or arms[0] != f"arm:{want}":
